@@ -12,6 +12,13 @@ if rnd > 1:
     for f in sorted(glob.glob(f"/verif/seeded/{pid}-*/meta.json")):
         m = json.load(open(f))
         known.append("  - " + " ".join(str(m.get("summary", "")).split())[:300])
+emph = ""
+if rnd >= 3:
+    emph = ("\n\nThis is a third round: the obvious spots have been tried.  Prefer (i) changes OUTSIDE the files listed above, in helper "
+            "modules the anchored code calls (odc/geo/types.py, math.py, roi.py, crs.py, geom.py, geobox.py, _interop.py, converters.py, "
+            "cog/_shared.py ...) that still break THIS property; (ii) cooperating pairs of edits that are each harmless alone; "
+            "(iii) 'equivalent-looking' refactors (reordered conditions, merged branches, cached values, vectorised loops, default-argument "
+            "changes) whose difference shows only for a special input class or call history.\n")
 avoid = ""
 if known:
     avoid = ("\n\nThe following changes were already tried by someone else — do NOT repeat them or close variants; look in different functions, "
@@ -33,7 +40,7 @@ Quantifier: {p['quantifier']['text']}
 The relevant code is in: {files}. Mechanisms involved:
 {mech}
 
-{avoid}
+{avoid}{emph}
 Your task: produce {n} different, independent code changes (mutations) to odc-geo, each of which
  (a) BREAKS the property above (for some input / configuration / sequence / schedule),
  (b) still imports/compiles and keeps the EXISTING test-suite passing. FIRST record the baseline: `cd {wt} && mkdir -p out && PYTHONPATH={wt} /venv/bin/python -m pytest -q -p no:cacheprovider tests 2>&1 | grep -E "^(FAILED|ERROR)" | sort > out/baseline.txt` (a handful of tests fail already without any change — that set is the baseline). After each mutation the set of FAILED/ERROR tests must be exactly the same,
